@@ -34,9 +34,9 @@ pub fn instant_from_offset(ns: i64) -> Instant {
 pub fn instant_to_offset(i: Instant) -> i64 {
     let b = base_instant();
     if i >= b {
-        i.duration_since(b).as_nanos() as i64
+        i.duration_since(b).as_nanos().min(i64::MAX as u128) as i64
     } else {
-        -(b.duration_since(i).as_nanos() as i64)
+        -(b.duration_since(i).as_nanos().min(i64::MAX as u128) as i64)
     }
 }
 
